@@ -312,6 +312,21 @@ def structure_doc(name, n):
                 if nxt:
                     out.append(nxt)
         return "\n".join(out) + "\n"
+    if name.startswith("ini-reference-"):
+        # option values that MENTION other options of their section, %(name)s: a reader that expands such references
+        # multiplies the text - a chain of ten options, each naming the previous one n times (fan-out), or a chain of n
+        # options each naming the previous one twice (depth)
+        base = ("[header]\nversion = 1.2\ntype = productmd.treeinfo\n[release]\nname = F\nshort = F\nversion = 22\n"
+                "[tree]\narch = x86_64\nplatforms = x86_64\nbuild_timestamp = 1\nvariants = Server\n"
+                "[variant-Server]\nid = Server\nuid = Server\nname = Server\ntype = variant\n")
+        depth, fan = (10, n) if name.endswith("fanout") else (n, 2)
+        sec = ["[checksums]" if "checksums" in name else "[stage2]"]
+        lines = ["p0 = sha256:" + "a" * 64 if "checksums" in name else "p0 = x"]
+        for i in range(1, depth):
+            lines.append("p%d = %s" % (i, ("%%(p%d)s" % (i - 1)) * fan))
+        if "checksums" not in name:
+            lines.append("mainimage = %%(p%d)s" % (depth - 1))
+        return base + "\n".join(sec + lines) + "\n"
     if name == "images-same-image-repeated":
         img = {"path": "a.iso", "mtime": 1, "size": 1, "volume_id": None, "type": "dvd", "format": "iso", "arch": "x86_64",
                "disc_number": 1, "disc_count": 1, "checksums": {"md5": "x"}, "implant_md5": None, "bootable": False, "subvariant": "S"}
